@@ -428,7 +428,7 @@ def check(prop, tier, seed):
                         else:
                             ex_args += ['--shard', '%d/%d' % (k, nshard)]
                         tasks.append(ex.submit(run_engine, u, 'enum', out, known_tsv, seed, ex_args))
-        # in-region corpus (DESIGN 9.5): inputs inside listed cause regions that satisfied the property on the reference tree
+        # in-region corpus (DESIGN 9.4): inputs inside listed cause regions that satisfied the property on the reference tree
         corpus_gz = os.path.join(ROOT, 'corpus', prop + '.inregion.tsv.gz')
         if os.path.exists(corpus_gz):
             import gzip
